@@ -202,7 +202,8 @@ def _decls_by_name(s):
 def check_smt(text, timeout_s, want_model=True):
     """decide one SMT-LIB script with z3; returns (verdict, model dict, seconds)"""
     t0 = time.time()
-    s = z3.Solver()
+    zctx = z3.Context()        # private context per query: nothing accumulates in a long-lived worker
+    s = z3.Solver(ctx=zctx)
     s.set('timeout', int(timeout_s * 1000))
     s.from_string(text)
     r = s.check()
@@ -218,6 +219,8 @@ def check_smt(text, timeout_s, want_model=True):
                     val = None
                 if val is not None:
                     model[d.name()] = val
+        del m
+    del s, r, zctx
     return verdict, model, time.time() - t0
 
 
